@@ -635,10 +635,22 @@ def random_program(rng, c, length, names, allow_tb=True):
             c.r("%s %d %s" % (q, i, set_tokens(V)))
             push(kinds[i], sizes[i] * ((5 if q == "deriv" else 2) ** len(V)) + 3 if kinds[i] == "E" else 1)
         elif r < 0.94:
-            i = pick(maxsize=40)
+            i = pick("B") if rng.random() < 0.5 else None    # diagram substitution has the most intricate code
+            if i is None: i = pick(maxsize=40)
             if i is None: continue
-            ks = rng.sample(names + ["zz"], rng.randint(1, 2))
-            m = [(k, pick(kinds[i], maxsize=40)) for k in sorted(ks)]
+            ks = rng.sample(names + ["zz"], rng.randint(1, min(3, len(names) + 1)))
+            if rng.random() < 0.4:
+                # replacements over variables the target does not have, shared between the replacements
+                fresh_names = ["p", "q", "r"]
+                m = []
+                for k in sorted(ks):
+                    e = gen.rand_tree(rng, rng.randint(1, 2), rng.sample(fresh_names, 2) + ([rng.choice(names)] if rng.random() < 0.3 else []), max_arity=2, consts=False, empties=False)
+                    push("E", gen.size(e)); j = c.r("expr " + pe(e))
+                    if kinds[i] != "E":
+                        c.r("conv %s %d" % (kinds[i], j)); push(kinds[i], 1); j = len(kinds) - 1
+                    m.append((k, j))
+            else:
+                m = [(k, pick(kinds[i], maxsize=40)) for k in sorted(ks)]
             c.r("subst %d %d%s" % (i, len(m), "".join(" %s %d" % (hexname(k), j) for k, j in m)))
             push(kinds[i], sizes[i] * max(sizes[j] for _, j in m) if kinds[i] == "E" else 1)
         elif r < 0.97:
@@ -667,8 +679,37 @@ def gen_C15(tier, rng):
             if ln.startswith("r "): dist[ln.split()[1]] += 1
         for k in kinds: dist["kind_" + k] += 1
         cases.append(c.done("prog%d" % n, True))
+    # substitution-centred programs: a function with real structure (random truth vector over 3-4 inputs), 2-3 keys
+    # among its inputs, replacements over fresh variables shared between them and over inputs that are not keys;
+    # then the result is used further (connective with its origin, restriction, conversion)
+    for n in range(120 if tier == "quick" else 1500):
+        c = Case("c15_s%d" % n)
+        nv = rng.randint(3, 4); vs = gen.NAMES[:nv]
+        tv = "".join(rng.choice("01") for _ in range(1 << nv))
+        kind_ = "EBT"[n % 3] if n % 5 else "B"
+        r0 = c.r("expr " + pe(gen.expr_of_tv(vs, tv, rng.choice(["dnf", "cnf", "mix"]))))
+        if kind_ != "E": r0 = c.r("conv %s %d" % (kind_, r0))
+        keys = sorted(rng.sample(vs, rng.randint(2, 3)))
+        nonkeys = [x for x in vs if x not in keys]
+        m = []
+        for k in keys:
+            pool_ = rng.sample(["p", "q", "r"], 2) + (rng.sample(nonkeys, 1) if nonkeys and rng.random() < 0.4 else [])
+            if kind_ != "B" and rng.random() < 0.3: pool_.append(rng.choice(keys))   # mentioning keys is refused by diagrams only
+            e = gen.rand_tree(rng, rng.randint(0, 2), pool_, max_arity=2, consts=False, empties=False)
+            j = c.r("expr " + pe(e))
+            if kind_ != "E": j = c.r("conv %s %d" % (kind_, j))
+            m.append((k, j))
+        k_ = c.r("subst %d %d%s" % (r0, len(m), "".join(" %s %d" % (hexname(k), j) for k, j in m)))
+        c.q("obs %d" % k_); c.q("enum %d" % k_)
+        if kind_ != "E": c.q("fresh %d" % k_)
+        k2 = c.r("op2 %s %s %d %d" % (rng.choice(["and", "or", "xor"]), rng.choice(FORMS), k_, r0)); c.q("obs %d" % k2)
+        if kind_ != "E": c.q("fresh %d" % k2)
+        k3 = c.r("restrict %d %s" % (k_, val_tokens([(rng.choice(["p", "q", "r"]), rng.random() < 0.5)]))); c.q("obs %d" % k3)
+        k4 = c.r("conv %s %d" % (rng.choice([t for t in "ET" if t != kind_] or ["E"]), k_)); c.q("obs %d" % k4)
+        dist["substitution_program"] += 1
+        cases.append(c.done("subst%d" % n, True))
     return {"cases": cases, "exhaustive": False, "dist": dict(dist),
-            "rule": "random well-typed programs of 5-30 instructions over {expr, conversions, connectives in all three call forms, not, restrict, exists/forall/derivative, substitute, mk_literal, normal forms} on a pool of objects of the three representations over 2-5 names plus a foreign one; after EVERY instruction: raw vectors through the hook, validate(), num_vars, the canonical unfolding of the node array, inputs, truth vector (and every fourth time all enumerations and the node count), compared with the model and the specification run on the same program; one program in four may use the table->diagram conversion (known finding D1); non-trivial = all; distinct = program"}
+            "rule": "random well-typed programs of 5-30 instructions over {expr, conversions, connectives in all three call forms, not, restrict, exists/forall/derivative, substitute, mk_literal, normal forms} on a pool of objects of the three representations over 2-5 names plus a foreign one; after EVERY instruction: raw vectors through the hook, validate(), num_vars, the canonical unfolding of the node array, inputs, truth vector (and every fourth time all enumerations and the node count), compared with the model and the specification run on the same program; one program in four may use the table->diagram conversion (known finding D1); plus substitution-centred programs (2-3 keys, replacements over shared fresh variables, result used further); non-trivial = all; distinct = program"}
 
 
 GENERATORS.update({"C01": gen_C01, "C03": gen_C03, "C04": gen_C04, "C06": gen_C06, "C07": gen_C07, "C08": gen_C08,
